@@ -180,11 +180,20 @@ def class_of(mod, fn):
 
 # -- callee resolution ---------------------------------------------------------------
 
-def callee_of(mod, call, cls=None):
+def callee_of(mod, call, cls=None, within=None):
   """The module-local def a call certainly reaches: `f(..)` for a module-level
-  function that is not shadowed, or `self.m(..)` resolved through the local MRO
-  of `cls`.  None otherwise."""
+  function that is bound exactly once in the module and not shadowed by a
+  local / parameter of the calling function `within`, or `self.m(..)` resolved
+  through the local MRO of `cls`.  None otherwise."""
   f = call.func
+  if isinstance(f, ast.Name) and within is not None and f.id in bound_names(within):
+    return None
+  if isinstance(f, ast.Attribute) and isinstance(f.value, ast.Name) and f.value.id == "self" \
+      and within is not None and (
+          "self" not in params_of(within)[:1] or any(
+              isinstance(n, ast.Name) and n.id == "self" and isinstance(n.ctx, ast.Store)
+              for n in ast.walk(within))):
+    return None
   if isinstance(f, ast.Name) and f.id in mod.functions:
     stores = [n for n in ast.walk(mod.tree) if isinstance(n, ast.Name)
               and n.id == f.id and isinstance(n.ctx, ast.Store)]
@@ -213,7 +222,7 @@ def local_callees(mod, fn, depth=2, cls=None):
     for f in frontier:
       for n in ast.walk(f):
         if isinstance(n, ast.Call):
-          c = callee_of(mod, n, cls)
+          c = callee_of(mod, n, cls, within=f)
           if c is not None and c not in out:
             out.append(c)
             nxt.append(c)
@@ -398,7 +407,7 @@ def inline_local_calls(mod, fn, depth=2, cls=None, only=None, skip=()):
       call, mode = st.value, "tail"
     if call is None or level <= 0:
       return None
-    callee = callee_of(mod, call, cls)
+    callee = callee_of(mod, call, cls, within=fn)
     if callee is None or callee is fn or (only is not None and callee.name not in only) \
         or callee.name in skip:
       return None
